@@ -46,6 +46,56 @@ func gnURI(s string) []byte            { return Ctx(6, false, []byte(s)) }
 func gnIP(b []byte) []byte             { return Ctx(7, false, b) }
 func gnRID(content []byte) []byte      { return Ctx(8, false, content) }
 
+// Host names of the tie alternatives ("san" dns-*-ties, "name" cn-dns-*).
+const (
+	tieLower = "shop.example.com"
+	tieMixed = "Shop.Example.com"
+	tieUpper = "SHOP.EXAMPLE.COM"
+	tiePuny  = "xn--bcher-kva.example.com"
+	tieUni   = "b\u00fccher.example.com"
+)
+
+var (
+	tieCase     = []string{tieLower, tieUpper, tieMixed, "www.example.com", tieLower, "LOCALHOST", "localhost"}
+	tieDot      = []string{tieLower, tieLower + ".", "example.com.", "example.com", "localhost.", "localhost"}
+	tiePunyCase = []string{tiePuny, "XN--BCHER-KVA.EXAMPLE.COM", "xn--bcher-kva", "XN--BCHER-KVA"}
+	tieIDN      = []string{tiePuny, tieUni, "B\u00dcCHER.example.com", "xn--bcher-kva", "b\u00fccher", "B\u00dcCHER"}
+	tieSpace    = []string{"localhost", " localhost", "localhost ", "\tlocalhost", tieLower, tieLower + " ", " " + tieLower}
+	tieWild     = []string{"*.example.com", "example.com", "?.example.com", "*.EXAMPLE.com", "*.example.com."}
+)
+
+// TieHost returns the host name a cn-dns-* alternative of "name" uses.
+func TieHost(kind string) string {
+	switch kind {
+	case "lower":
+		return tieLower
+	case "mixed":
+		return tieMixed
+	case "puny":
+		return tiePuny
+	}
+	panic("xgen: tie host " + kind)
+}
+
+func dnsList(lists ...[]string) [][]byte {
+	var out [][]byte
+	for _, l := range lists {
+		for _, s := range l {
+			out = append(out, gnDNS(s))
+		}
+	}
+	return out
+}
+
+// tieURIIP: one host as dNSName, as URI in four spellings and as iPAddress in the 4- and the 16-byte form
+// (both print as 192.0.2.1).
+func tieURIIP() [][]byte {
+	v4in6 := append(append(make([]byte, 10), 0xff, 0xff), 192, 0, 2, 1)
+	return [][]byte{gnDNS("192.0.2.1"), gnDNS(tieLower),
+		gnURI("http://" + tieLower + "/"), gnURI("http://" + tieMixed + "/"), gnURI("http://" + tieLower), gnURI("http://" + tieLower + "./"),
+		gnIP([]byte{192, 0, 2, 1}), gnIP(v4in6)}
+}
+
 func sctV1(version byte, extLen int, ext []byte, sigLen int, sig []byte) []byte {
 	b := []byte{version}
 	b = append(b, filler(32)...)                 // log id
@@ -179,6 +229,18 @@ func buildExtDefs() []extDef {
 			{name: "dns-highbit", value: Seq(gnDNS("\xe9.example"))},
 			{name: "uri-only", value: Seq(gnURI("http://a.example/"))},
 			{name: "trailing-data", value: cat(Seq(gnDNS("a.example")), []byte{0x00})},
+			// names that TIE (or nearly tie) under the orderings / normalisations a name collector may apply:
+			// ASCII case, identical duplicates, trailing dot, punycode vs. Unicode spelling, surrounding white
+			// space, wildcard / redaction prefix, the same host as dNSName / URI / iPAddress (4- and 16-byte form).
+			// Combined with the "name" alternatives cn-dns-* they also tie the common name with a SAN entry.
+			{name: "dns-case-ties", value: Seq(dnsList(tieCase)...)},
+			{name: "dns-trailing-dot-ties", value: Seq(dnsList(tieDot)...)},
+			{name: "dns-punycode-ties", value: Seq(dnsList(tiePunyCase)...)},
+			{name: "dns-idn-unicode-ties", value: Seq(dnsList(tieIDN)...)},
+			{name: "dns-whitespace-ties", value: Seq(dnsList(tieSpace)...)},
+			{name: "dns-wildcard-ties", value: Seq(dnsList(tieWild)...)},
+			{name: "uri-ip-ties", value: Seq(tieURIIP()...)},
+			{name: "names-all-ties", value: Seq(append(dnsList(tieCase, tieDot, tiePunyCase, tieSpace, tieWild), tieURIIP()...)...)},
 		}},
 		{name: "ian", oid: []int{2, 5, 29, 18}, valid: sanValid, alts: []extAlt{
 			{name: "ip-5", value: Seq(gnDNS("a.example"), gnIP(filler(5)))},
